@@ -1,7 +1,7 @@
 //! Seeded generator of ONNX graph specs for C01: every fusion pattern of src/optimize/fusions.rs
 //! (with randomised constant ranks/shapes/values, operand order, axes, reuse of intermediates)
 //! embedded in random glue operators.
-use crate::{Attr, ConstSpec, Decl, Dt, InSpec, NodeSpec, SplitMix64, Spec, shape_str};
+use crate::{Attr, ConstSpec, Decl, DimDecl, Dt, InSpec, NodeSpec, SplitMix64, Spec, shape_str};
 
 #[derive(Clone, Debug)]
 pub struct Val { pub name: String, pub dt: Dt, pub shape: Vec<usize>, pub bound: f64, pub fb: i32, pub konst: bool, pub is_input: bool }
@@ -45,7 +45,10 @@ impl G {
 
     pub fn input(&mut self, dt: Dt, shape: &[usize]) -> usize {
         let name = self.fresh("x");
-        let decl = self.force_decl.unwrap_or_else(|| *self.rng.pick(&[Decl::Fixed, Decl::Fixed, Decl::Fixed, Decl::Sym, Decl::NoShape]));
+        let decl = match self.force_decl.clone() {
+            Some(d) => d,
+            None => match self.rng.below(8) { 0..=2 => Decl::Fixed, 3 => Decl::Sym, 4 => Decl::NoShape, _ => self.dyn_decl(shape) },
+        };
         let n = prod(shape);
         let (lo, hi) = match dt { Dt::U => (0, 6), Dt::C => (-4, 4), Dt::B => (0, 1), _ => (-3, 3) };
         let data: Vec<f64> = (0..n).map(|_| self.rng.range(lo, hi) as f64).collect();
@@ -53,6 +56,18 @@ impl G {
         self.spec.data.push((name.clone(), data));
         self.vals.push(Val { name, dt, shape: shape.to_vec(), bound: hi.abs().max(lo.abs()) as f64, fb: 0, konst: false, is_input: true });
         self.vals.len() - 1
+    }
+    /// per-dimension declaration: unnamed dynamic (`?`), a symbolic name shared by all dimensions of
+    /// that size in the graph (`s<size>`: equal names always have equal sizes, as a conforming caller
+    /// must provide), a name of its own, or the fixed size
+    pub fn dyn_decl(&mut self, shape: &[usize]) -> Decl {
+        let ds = shape.iter().enumerate().map(|(k, d)| match self.rng.below(10) {
+            0..=3 => DimDecl::Unnamed,
+            4..=5 => DimDecl::Named(format!("s{}", d)),
+            6 => DimDecl::Named(format!("own{}_{}", self.n, k)),
+            _ => DimDecl::Fixed(*d),
+        }).collect();
+        Decl::Dims(ds)
     }
     pub fn konst(&mut self, dt: Dt, shape: &[usize], vals: Vec<f64>) -> usize {
         let name = self.fresh("c");
@@ -694,6 +709,47 @@ impl G {
         self.node("Add", None, &[x, z], vec![], Dt::F, vx.shape.clone(), vx.bound, vx.fb)
     }
 
+    /// Two fresh inputs of equal rank whose dimensions are declared unnamed (`?`), with shared or own
+    /// symbolic names, or fixed, and whose run-time sizes differ wherever the declaration allows;
+    /// consumed by Shape / Size / Gather / Slice / Expand / Reshape (ComputeShapeFusion,
+    /// ShapeSliceToConstant and shape-inference constants with >= 2 dynamic inputs).
+    pub fn t_dyn_shapes(&mut self) -> usize {
+        let r = 1 + self.rng.below(3);
+        let sa = self.rand_shape(r, r);
+        let mut sb = self.rand_shape(r, r);
+        for k in 0..r { if self.rng.chance(35) { sb[k] = sa[k]; } }
+        let saved = self.force_decl.take();
+        let da = self.dyn_decl(&sa); self.force_decl = Some(da); let x = self.input(Dt::F, &sa);
+        let db = self.dyn_decl(&sb); self.force_decl = Some(db); let y = self.input(Dt::F, &sb);
+        self.force_decl = saved;
+        let (first, second) = if self.rng.chance(75) { (x, y) } else { (y, x) };
+        let vs = self.v(second);
+        let shx = self.node("Shape", None, &[first], vec![], Dt::I, vec![r], 6.0, 0);
+        let shy = self.node("Shape", None, &[second], vec![], Dt::I, vec![r], 6.0, 0);
+        let mut last = shy;
+        for _ in 0..(1 + self.rng.below(3)) {
+            last = match self.rng.below(7) {
+                0 => self.node("Size", None, &[second], vec![], Dt::I, vec![], 1300.0, 0),
+                1 => { let i = self.rng.range(-(r as i64), r as i64 - 1); let idx = self.konst(Dt::L, &[], vec![i as f64]);
+                       self.node("Gather", None, &[shy, idx], vec![("axis", Attr::Int(0))], Dt::I, vec![], 6.0, 0) }
+                2 => self.node("Add", None, &[shx, shy], vec![], Dt::I, vec![r], 12.0, 0),
+                3 => { let c = self.scalar(1.0); let e = self.node("Expand", None, &[c, shy], vec![], Dt::F, vs.shape.clone(), 1.0, 0);
+                       self.binary("Add", None, second, e).unwrap_or(e) }
+                4 => { let (s0, e0) = (self.ints(&[0]), self.ints(&[1]));
+                       let lead = self.node("Slice", None, &[shy, s0, e0], vec![], Dt::I, vec![1], 6.0, 0);
+                       let m1 = self.ints(&[-1]);
+                       let tgt = self.node("Concat", None, &[lead, m1], vec![("axis", Attr::Int(0))], Dt::I, vec![2], 6.0, 0);
+                       let os = vec![vs.shape[0], vs.shape[1..].iter().product()];
+                       self.node("Reshape", None, &[second, tgt], vec![], Dt::F, os, vs.bound, vs.fb) }
+                5 => { let st = self.rng.below(r) as i64; let (s0, e0) = (self.ints(&[st]), self.ints(&[i32::MAX as i64]));
+                       self.node("Slice", None, &[shy, s0, e0], vec![], Dt::I, vec![r - st as usize], 6.0, 0) }
+                _ => { let eq = self.node("Equal", None, &[shx, shy], vec![], Dt::B, vec![r], 1.0, 0);
+                       self.node("Cast", None, &[eq], vec![("to", Attr::Int(6))], Dt::I, vec![r], 1.0, 0) }
+            };
+        }
+        last
+    }
+
     // ---------------------------------------------------------------- glue
     pub fn glue(&mut self) {
         let x = self.pick_float(0, 4);
@@ -718,7 +774,7 @@ impl G {
     pub fn template(&mut self, which: usize) {
         let names = ["identity", "reciprocal", "silu", "swish", "gelu", "approx_gelu", "layernorm", "rmsnorm", "matmul_add", "matmul_scale",
                      "matmul_integer", "conv_add", "conv_integer", "safe_softmax", "add_softmax", "repeat_interleave", "gqa", "transpose",
-                     "shape", "cast", "reduce_mean_axes", "const_subgraph", "random"];
+                     "shape", "cast", "reduce_mean_axes", "const_subgraph", "random", "dyn_shapes"];
         self.tags.push(names[which].to_string());
         match which {
             0 => { let x = self.pick_float(0, 4); self.t_identity(x, None); }
@@ -743,10 +799,11 @@ impl G {
             19 => { let x = self.pick_float(0, 4); self.t_cast(x); }
             20 => { let x = self.pick_float(1, 4); self.t_reduce_mean_axes(x); }
             21 => { let x = self.pick_float(0, 4); self.t_const_subgraph(x); }
-            _ => { let x = self.pick_float(0, 3); self.t_random(x); }
+            22 => { let x = self.pick_float(0, 3); self.t_random(x); }
+            _ => { self.t_dyn_shapes(); }
         }
     }
-    pub const N_TEMPLATES: usize = 23;
+    pub const N_TEMPLATES: usize = 24;
 
     /// choose graph outputs: every sink (value without consumer) plus a few intermediates
     pub fn finish(mut self, extra_out_pct: usize) -> (Spec, String) {
@@ -789,7 +846,7 @@ pub fn random_graph(seed: u64) -> (Spec, String) {
         g.template(w);
         for _ in 0..g.rng.below(3) { if g.spec.nodes.len() < budget { g.glue(); } }
     }
-    g.spec.vi = g.rng.chance(40);
+    g.spec.vi = *g.rng.pick(&[0u8, 0, 0, 1, 1, 2]);
     let pct = *g.rng.pick(&[0usize, 0, 10, 30]);
     g.finish(pct)
 }
@@ -799,7 +856,7 @@ pub fn random_graph(seed: u64) -> (Spec, String) {
 pub fn focus_graph(seed: u64) -> (Spec, String) {
     let mut g = G::new(seed);
     let kind = g.rng.below(4);
-    g.force_decl = Some(if kind == 0 { *g.rng.pick(&[Decl::Fixed, Decl::Fixed, Decl::Sym, Decl::NoShape]) } else { Decl::Fixed });
+    g.force_decl = Some(if kind == 0 { g.rng.pick(&[Decl::Fixed, Decl::Fixed, Decl::Sym, Decl::NoShape]).clone() } else { Decl::Fixed });
     let (root, mut desc, inter): (usize, String, Vec<usize>) = match kind {
         0 => { let s = g.rand_shape(0, 4); let x = g.input(Dt::F, &s); let (y, d) = g.t_identity(x, Some("root")); let known = g.spec.inputs.iter().all(|i| i.decl != Decl::NoShape); (y, format!("{}|{}", d, known as u8), vec![]) }
         1 => { let (y, d, mm) = g.t_matmul_add(None, Some("root")); (y, d, vec![mm]) }
@@ -820,7 +877,7 @@ pub fn focus_graph(seed: u64) -> (Spec, String) {
     }
     // a consumer of the root value (never blocks a fusion)
     if g.rng.chance(30) && g.vals[root].dt == Dt::F { g.unary("Relu", root, vec![]); }
-    g.spec.vi = false;
+    g.spec.vi = 0;
     let tagname = desc.split('|').next().unwrap_or("none").to_string();
     let (mut spec, _) = g.finish(0);
     for o in extra_outs { if !spec.outputs.contains(&o) { spec.outputs.push(o); } }
